@@ -274,6 +274,26 @@ def run(chk):
                 a[1] += bad
                 if first is not None and (a[2] is None or (len(first[0]), first[0]) < (len(a[2][0]), a[2][0])):
                     a[2] = first
+    # identifier-shaped and number-shaped words: the partition alphabet has one letter per class, but the reader's numeric
+    # cascade knows particular words (Inf, NaN, j, exponents, radix prefixes); the constructor must side with the reader on them
+    words = set()
+    for base in ("inf", "nan", "infinity"):
+        for cased in {base, base.upper(), base.capitalize(), "NaN" if base == "nan" else base.title(), base[0].upper() + base[1:]}:
+            for sign in ("", "+", "-"):
+                for tail in ("", "j", "J", "_", ",", "+1j", "_j"):
+                    words.add(sign + cased + tail)
+    words |= {"j", "J", "1j", "1J", "e1", "1e1", "1E1", "0x1f", "0X1F", "0o7", "0b1", "_1", "1_", "1,0", ",1", ".5", "5.", "a.b", "...", ".",
+              "True", "None", "False", "if", "def", "é", "x1", "a-b", "-", "+", "-1", "+a", "1+2j", "1+j", "0_x1"}
+    for w in sorted(words):
+        counts["symkw-words"] = counts.get("symkw-words", 0) + 1
+        for label, ok, seen in sym_kw(w):
+            a = total.setdefault(label, [0, 0, None])
+            a[0] += 1
+            if not ok:
+                a[1] += 1
+                if a[2] is None or (len(w), w) < (len(a[2][0]), a[2][0]):
+                    a[2] = (w, seen)
+    chk.bounds["words"] = f"{len(words)} identifier- and number-shaped words (casings of inf / nan / infinity with signs and suffixes, radix and exponent forms, keywords)"
     accepted = {k[1:]: v[0] - v[1] for k, v in total.items() if k[0] == "#"}
     chk.extra["accepted_by_both_sides"] = accepted
     chk.ob("vacuity/each clause has strings accepted by constructor and reader as well as rejected ones",
